@@ -94,6 +94,9 @@ def check_text(text, strict, loader="auto"):
 def check_case(case):
     if case["kind"] == "text":
         return check_text(case["text"], case["strict"], case.get("loader", "auto"))[0]
+    if case["kind"] == "scale":
+        label, model = X.scale_models(case["fmt"], case.get("thorough", False))[case["index"]]
+        return check_text(X.model_text(model), case["strict"], case.get("loader", "auto"))[0]
     if case["kind"] == "mutation":
         return check_text(mutate(case), case["strict"], case.get("loader", "auto"))[0]
     raise core.MachineryError("unknown case")
@@ -199,6 +202,24 @@ def explore_shard(acc, shard):
                 acc.count("nontrivial")
         if case:
             acc.sample(layer, case)
+    elif kind == "scale":
+        _, fmt, part, nparts, thorough = shard
+        layer = "S scale (long one-line lists, metacharacters around buffer sizes, many charts / properties)"
+        case = None
+        for i, (label, model) in enumerate(X.scale_models(fmt, thorough)):
+            if i % nparts != part:
+                continue
+            text = X.model_text(model)
+            for strict in (True, False):
+                case = {"kind": "scale", "fmt": fmt, "index": i, "thorough": thorough, "label": label, "strict": strict}
+                core.guard(acc, case)
+                run_text(acc, layer, case, text, strict, ("auto", "sm" if fmt == "sm" else "ssc"))
+            acc.count("states")
+            acc.count("transitions")
+            acc.count("nontrivial")
+            acc.outcome("scale text")
+        if case:
+            acc.sample(layer, case)
     elif kind == "whole":
         for rel, _ in X.corpus_files():
             for strict in (True, False):
@@ -239,6 +260,9 @@ def explore(run):
         for b in range(ns):
             shards.append(("C", (a, b), cmax))
     shards.append(("whole",))
+    for fmt in ("sm", "ssc"):
+        for part in range(8):
+            shards.append(("scale", fmt, part, 8, run.thorough()))
     real = [rel for rel, _ in X.corpus_files() if "blank" not in rel]
     stride = 1 if run.thorough() else 40
     sstride = 150 if run.thorough() else 500
@@ -265,11 +289,13 @@ def explore(run):
         f"corpus: whole files, every truncation at and every deletion of a line boundary on a stride of {stride}, splices A[:i]+B[j:] for all ordered file pairs on a stride of {sstride} lines; "
         "a case is checked when the loader accepts the text, every SSC chart has note data and no value falls in msdparser's escaping gaps (each exclusion counted). "
         "Non-trivial = text with >= 2 parameters / any corpus mutation."
+        + " S: scale texts - one-line lists of 7..700 entries as BPMS / STOPS / BGCHANGES (SSC: also in the chart), each of : // \\ ; at every offset in a window before 4096 and 8192 (thorough 16384, 65536) in the first property, the note data and a description, 17 / 130 / 1100 charts, 400 properties; both formats x strict x 2 loaders."
     )
     run.assumptions = [
         "simfile.loads is the loader under test (its conformance to the rules is C03's business)",
         "msdparser escaping gaps are detected operationally (write with MSDParameter.__str__, read with parse_msd) and must match a pattern listed in the property",
     ]
+    core.require(acc.outcomes["scale text"] > 0, "no scale text")
     core.require(acc.c["cycles_checked"] > 1000, "too few cycles checked")
     core.require(acc.outcomes["SSC chart text"] > 0 and acc.outcomes["SM chart text"] > 0, "no chart texts")
     core.require(acc.outcomes["key-only parameter"] > 0, "no key-only parameter")
